@@ -126,7 +126,11 @@ class Ctx:
         return self.tier == "thorough" or self.escalated
 
     def budget(self, quick: int, thorough: int) -> int:
-        return thorough if self.thorough else quick
+        if self.tier == "thorough":
+            return thorough
+        if self.escalated:      # quick tier, tie broken: search harder, but stay within minutes
+            return min(thorough, 4 * quick)
+        return quick
 
     def count(self, family: str, key: Any, n: int = 1) -> None:
         d = self.distribution.setdefault(family, {})
@@ -382,6 +386,7 @@ def write_evidence(ctx: Ctx, spec: dict, known_seen: dict, nviol: int) -> None:
         "traces_validated_against_impl": ctx.traces_validated,
         "disagreements_checked": ctx.disagreements_checked,
         "disagreements_found": len(ctx.disagreements),
+        "disagreement_samples": ctx.disagreements[:3],
         "distribution": ctx.distribution,
         "known_findings_seen": sorted(known_seen),
         "tie_broken": ctx.tie_broken,
